@@ -146,6 +146,13 @@ func (c *c15) Run(cs core.Case) core.Result {
 			os.WriteFile(filepath.Join(t.arch, f.Name), f.Data, 0644)
 		}
 		useUni := p.Seed%3 == 1
+		// Another carrier: the genuine description (benign name) is followed by a
+		// second description packet that declares the SAME file ID but the hostile
+		// name (valid packet hash; the ID no longer matches the name).
+		dupDesc := !useUni && p.Seed%5 == 2
+		if dupDesc {
+			in[pos].Name = "benign-missing.bin"
+		}
 		if useUni {
 			// the hostile name travels in the optional Unicode Filename packet;
 			// the file description itself is benign
@@ -169,9 +176,21 @@ func (c *c15) Run(cs core.Case) core.Result {
 				}
 			}
 		}
+		if dupDesc {
+			for _, rf := range rs.Files {
+				if rf.Name == "benign-missing.bin" {
+					fd := rf.Desc
+					fd.RawName = par2rw.PadName(name)
+					dup := par2rw.Packet{SetID: rs.SetID, Type: par2rw.TypeFileDesc, Body: fd.Body()}
+					// after everything else, so that it comes after the genuine one
+					uniPackets = append(uniPackets, dup)
+					r.Count("archives_with_duplicate_description", 1)
+				}
+			}
+		}
 		// position actually obtained in the sorted id order
 		for i, rf := range rs.Files {
-			if rf.Name == name || (useUni && rf.Name == "benign-missing.bin") {
+			if rf.Name == name || ((useUni || dupDesc) && rf.Name == "benign-missing.bin") {
 				pos = i
 			}
 		}
@@ -206,7 +225,20 @@ func (c *c15) Run(cs core.Case) core.Result {
 		os.WriteFile(filepath.Join(t.arch, "set.vol00+99.par2"), par2rw.Serialize(vp), 0644)
 	} else {
 		var in []par1rw.InFile
+		// Another carrier: the hostile name sits on an entry that is NOT saved in
+		// the parity set, placed before the saved ones, and carries the size and
+		// hashes of the first saved file, which is missing.
+		shadow := p.Seed%5 == 2
+		if shadow {
+			pos = 0
+			victim := par1rw.InFile{Name: "victim.bin", Data: evilData, Saved: true}
+			in = append(in, par1rw.InFile{Name: name, Data: evilData, Saved: false}, victim)
+			r.Count("archives_with_hostile_non_saved_entry", 1)
+		}
 		for i := 0; i < nf; i++ {
+			if i == pos && shadow {
+				continue
+			}
 			if i == pos {
 				in = append(in, par1rw.InFile{Name: name, Data: evilData, Saved: true})
 				continue
